@@ -72,6 +72,9 @@ class Trxcon:
     def burst(self, fn, tn, pwr, bits):
         return self.op("BURST %d %d %d %s" % (fn, tn, pwr, hexs(bits)))
 
+    def uplink(self, pwr, bits):
+        return self.op("UL %d %s" % (pwr, hexs(bits)))
+
     def timeout(self):
         return self.op("TIMEOUT")
 
